@@ -1,5 +1,7 @@
 (* Proofs/OccProofs.v — no lost update under optimistic concurrency control (C14): an invariant of [step], hence of
-   every schedule; and the refutation of the statement when a command may send an empty tag. *)
+   every schedule with every placement of backend faults (reply lost after the commit, update refused with
+   diagnostics); and the refutations of the statement when a command may send an empty tag or when the client sends
+   an update again after a lost reply. *)
 From Verif Require Import Base.Bytes Model.Occ.
 From Coq Require Import Lia ZifyN ZifyNat ZifyBool.
 
@@ -46,134 +48,203 @@ Section OccProofs.
   Record inv (st : state) : Prop := mkInv {
     inv_len : length (st_ph st) = length cmds;
     inv_def : s_def (st_store st) = replay cmds (st_log st) d0;
-    inv_read : forall i d r, nth_error (st_ph st) i = Some (PRead d r) ->
-                 r <= s_rev (st_store st) /\ (r = s_rev (st_store st) -> d = s_def (st_store st));
-    inv_log : forall i, In i (st_log st) <-> nth_error (st_ph st) i = Some (PDone OOk);
-    inv_nodup : NoDup (st_log st);
+    inv_read : forall i d r k, nth_error (st_ph st) i = Some (PRead d r k) ->
+                 r <= s_rev (st_store st) /\ (r = s_rev (st_store st) -> d = s_def (st_store st))
+                 /\ ~ In i (committed st);
+    inv_idle : forall i, nth_error (st_ph st) i = Some PIdle -> ~ In i (committed st);
+    inv_sent : forall i t b k, nth_error (st_ph st) i <> Some (PSent t b k);
+    inv_ok : forall i, nth_error (st_ph st) i = Some (PDone OOk) -> In i (committed st);
+    inv_in : forall i, In i (committed st) ->
+               nth_error (st_ph st) i = Some (PDone OOk) \/ nth_error (st_ph st) i = Some (PDone OLost);
+    inv_nodup : NoDup (committed st);
     inv_trace : Forall (event_ok cmds) (st_trace st)
   }.
 
   Lemma inv_init (init : store) : s_def init = d0 -> inv (init_state cmds init).
   Proof.
-    intros Hd; constructor; cbn [init_state st_ph st_store st_log st_trace].
+    intros Hd.
+    assert (Hph : forall i p, nth_error (map (fun _ : command => @PIdle D) cmds) i = Some p -> p = PIdle).
+    { intros i p H. apply nth_error_In in H. apply in_map_iff in H. destruct H as [c [Hc _]]. congruence. }
+    constructor; unfold committed; cbn [init_state st_ph st_store st_log st_trace map].
     - apply map_length.
     - exact Hd.
-    - intros i d r H. apply nth_error_In in H. apply in_map_iff in H. destruct H as [c [Hc _]]. discriminate.
-    - intros i; split; [intros []|].
-      intros H. apply nth_error_In in H. apply in_map_iff in H. destruct H as [c [Hc _]]. discriminate.
+    - intros i d r k H. apply Hph in H. discriminate.
+    - intros i _ [].
+    - intros i t b k H. apply Hph in H. discriminate.
+    - intros i H. apply Hph in H. discriminate.
+    - intros i [].
     - constructor.
     - constructor.
   Qed.
 
   (* a command ends without writing *)
-  Lemma inv_finish (st : state) (i : nat) (o : outcome) (d : D) (r : N) :
-    inv st -> nth_error (st_ph st) i = Some (PRead d r) -> o <> OOk -> inv (finish st i o).
+  Lemma inv_finish (st : state) (i : nat) (o : outcome) (d : D) (r : N) (k : nat) :
+    inv st -> nth_error (st_ph st) i = Some (PRead d r k) -> o <> OOk -> inv (finish st i o).
   Proof.
     intros I Hph Ho. pose proof (nth_error_some_lt _ _ _ Hph) as Hlt.
-    constructor; cbn [finish st_ph st_store st_log st_trace].
+    destruct (inv_read _ I i d r k Hph) as [_ [_ Hnotin]].
+    constructor; unfold committed in *; cbn [finish st_ph st_store st_log st_trace].
     - rewrite set_nth_length. exact (inv_len _ I).
     - exact (inv_def _ I).
-    - intros j dj rj Hj. destruct (Nat.eq_dec i j) as [->|Hne].
+    - intros j dj rj kj Hj. destruct (Nat.eq_dec i j) as [->|Hne].
       + rewrite nth_error_set_nth_eq in Hj by exact Hlt. discriminate.
-      + rewrite nth_error_set_nth_ne in Hj by exact Hne. exact (inv_read _ I j dj rj Hj).
-    - intros j. destruct (Nat.eq_dec i j) as [->|Hne].
-      + rewrite nth_error_set_nth_eq by exact Hlt. rewrite (inv_log _ I j), Hph.
-        split; intros H; [discriminate|]. injection H as H. congruence.
-      + rewrite nth_error_set_nth_ne by exact Hne. exact (inv_log _ I j).
+      + rewrite nth_error_set_nth_ne in Hj by exact Hne. exact (inv_read _ I j dj rj kj Hj).
+    - intros j Hj. destruct (Nat.eq_dec i j) as [->|Hne].
+      + rewrite nth_error_set_nth_eq in Hj by exact Hlt. discriminate.
+      + rewrite nth_error_set_nth_ne in Hj by exact Hne. exact (inv_idle _ I j Hj).
+    - intros j t b kj Hj. destruct (Nat.eq_dec i j) as [->|Hne].
+      + rewrite nth_error_set_nth_eq in Hj by exact Hlt. discriminate.
+      + rewrite nth_error_set_nth_ne in Hj by exact Hne. exact (inv_sent _ I j t b kj Hj).
+    - intros j Hj. destruct (Nat.eq_dec i j) as [->|Hne].
+      + rewrite nth_error_set_nth_eq in Hj by exact Hlt. injection Hj as Hj. contradiction.
+      + rewrite nth_error_set_nth_ne in Hj by exact Hne. exact (inv_ok _ I j Hj).
+    - intros j Hj. destruct (Nat.eq_dec i j) as [->|Hne]; [contradiction|].
+      rewrite nth_error_set_nth_ne by exact Hne. exact (inv_in _ I j Hj).
     - exact (inv_nodup _ I).
     - exact (inv_trace _ I).
   Qed.
 
-  (* a write step of command [i] carrying tag [t] and body [body] *)
-  Lemma inv_write (st : state) (i : nat) (t : option N) (body : D) :
+  (* the backend serves an update of command [i] (round [k], tag [t], text [body]) under fault [f] *)
+  Lemma inv_write (st : state) (i k : nat) (t : option N) (body : D) (f : fault) (next : bool -> phase D) :
     inv st ->
     (i < length (st_ph st))%nat ->
-    nth_error (st_ph st) i <> Some (PDone OOk) ->
-    (accept t (s_rev (st_store st)) = true ->
-       apply_cmd cmds (s_def (st_store st)) i = body
-       /\ event_ok cmds (EvPatch i t true (st_store st) body (mkStore body (s_rev (st_store st) + 1)))) ->
-    (accept t (s_rev (st_store st)) = false ->
-       event_ok cmds (EvPatch i t false (st_store st) body (st_store st))) ->
-    inv (write st i t body).
+    ~ In i (committed st) ->
+    (f <> FReject -> next true = PDone OOk \/ next true = PDone OLost) ->
+    ((exists o, o <> OOk /\ next false = PDone o)
+     \/ (exists d r k1 k2, nth_error (st_ph st) i = Some (PRead d r k1) /\ next false = PRead d r k2)) ->
+    (f <> FReject -> accept t (s_rev (st_store st)) = true ->
+       apply_cmd cmds (s_def (st_store st)) (i, k) = body
+       /\ event_ok cmds (EvPatch i t true f (st_store st) body (mkStore body (s_rev (st_store st) + 1)))) ->
+    ((match f with FReject => false | _ => accept t (s_rev (st_store st)) end) = false ->
+       event_ok cmds (EvPatch i t false f (st_store st) body (st_store st))) ->
+    inv (write st i k t body f next).
   Proof.
-    intros I Hlt Hnot Hacc1 Hacc0. unfold write.
-    destruct (accept t (s_rev (st_store st))) eqn:Hacc.
-    - destruct (Hacc1 eq_refl) as [Happ Hev].
-      constructor; cbn [st_ph st_store st_log st_trace s_def s_rev].
+    intros I Hlt Hnotin Hnt Hnf Hacc1 Hacc0. unfold write.
+    destruct (match f with FReject => false | _ => accept t (s_rev (st_store st)) end) eqn:Hc.
+    - assert (Hf : f <> FReject) by (intros ->; discriminate).
+      assert (Hacc : accept t (s_rev (st_store st)) = true) by (destruct f; [exact Hc|exact Hc|discriminate]).
+      destruct (Hacc1 Hf Hacc) as [Happ Hev]. specialize (Hnt Hf).
+      assert (Hcm : forall j, In j (map fst (st_log st ++ [(i, k)])) <-> In j (committed st) \/ j = i).
+      { intros j. rewrite map_app, in_app_iff. cbn [map fst In]. unfold committed. intuition. }
+      constructor; unfold committed in *; cbn [st_ph st_store st_log st_trace s_def s_rev].
       + rewrite set_nth_length. exact (inv_len _ I).
       + unfold replay. rewrite fold_left_app. cbn [fold_left]. fold (replay cmds (st_log st) d0).
         rewrite <- (inv_def _ I). symmetry. exact Happ.
-      + intros j dj rj Hj. destruct (Nat.eq_dec i j) as [->|Hne].
-        * rewrite nth_error_set_nth_eq in Hj by exact Hlt. discriminate.
+      + intros j dj rj kj Hj. destruct (Nat.eq_dec i j) as [->|Hne].
+        * rewrite nth_error_set_nth_eq in Hj by exact Hlt. destruct Hnt as [H|H]; rewrite H in Hj; discriminate.
         * rewrite nth_error_set_nth_ne in Hj by exact Hne.
-          destruct (inv_read _ I j dj rj Hj) as [Hle _]. split; [lia|intros ->; lia].
-      + intros j. rewrite in_app_iff. destruct (Nat.eq_dec i j) as [->|Hne].
-        * rewrite nth_error_set_nth_eq by exact Hlt. split; auto. intros _. right. left. reflexivity.
-        * rewrite nth_error_set_nth_ne by exact Hne. rewrite <- (inv_log _ I j). split.
-          -- intros [H|[H|[]]]; [exact H|congruence].
-          -- intros H; left; exact H.
-      + apply NoDup_snoc; [exact (inv_nodup _ I)|]. intros Hin. apply (inv_log _ I i) in Hin. contradiction.
+          destruct (inv_read _ I j dj rj kj Hj) as [Hle [_ Hn]]. split; [lia|]. split; [intros ->; lia|].
+          rewrite Hcm. intros [H|H]; [exact (Hn H)|congruence].
+      + intros j Hj. destruct (Nat.eq_dec i j) as [->|Hne].
+        * rewrite nth_error_set_nth_eq in Hj by exact Hlt. destruct Hnt as [H|H]; rewrite H in Hj; discriminate.
+        * rewrite nth_error_set_nth_ne in Hj by exact Hne. rewrite Hcm.
+          intros [H|H]; [exact (inv_idle _ I j Hj H)|congruence].
+      + intros j t' b kj Hj. destruct (Nat.eq_dec i j) as [->|Hne].
+        * rewrite nth_error_set_nth_eq in Hj by exact Hlt. destruct Hnt as [H|H]; rewrite H in Hj; discriminate.
+        * rewrite nth_error_set_nth_ne in Hj by exact Hne. exact (inv_sent _ I j t' b kj Hj).
+      + intros j Hj. rewrite Hcm. destruct (Nat.eq_dec i j) as [->|Hne]; [right; reflexivity|].
+        rewrite nth_error_set_nth_ne in Hj by exact Hne. left. exact (inv_ok _ I j Hj).
+      + intros j Hj. rewrite Hcm in Hj. destruct (Nat.eq_dec i j) as [->|Hne].
+        * rewrite nth_error_set_nth_eq by exact Hlt. destruct Hnt as [H|H]; rewrite H; auto.
+        * rewrite nth_error_set_nth_ne by exact Hne. destruct Hj as [Hj|Hj]; [exact (inv_in _ I j Hj)|congruence].
+      + rewrite map_app. cbn [map fst]. apply NoDup_snoc; [exact (inv_nodup _ I)|exact Hnotin].
       + apply Forall_app. split; [exact (inv_trace _ I)|]. constructor; [exact Hev|constructor].
-    - constructor; cbn [st_ph st_store st_log st_trace].
+    - constructor; unfold committed in *; cbn [st_ph st_store st_log st_trace].
       + rewrite set_nth_length. exact (inv_len _ I).
       + exact (inv_def _ I).
-      + intros j dj rj Hj. destruct (Nat.eq_dec i j) as [->|Hne].
-        * rewrite nth_error_set_nth_eq in Hj by exact Hlt. discriminate.
-        * rewrite nth_error_set_nth_ne in Hj by exact Hne. exact (inv_read _ I j dj rj Hj).
-      + intros j. destruct (Nat.eq_dec i j) as [->|Hne].
-        * rewrite nth_error_set_nth_eq by exact Hlt. rewrite (inv_log _ I j).
-          split; intros H; [contradiction|discriminate].
-        * rewrite nth_error_set_nth_ne by exact Hne. exact (inv_log _ I j).
+      + intros j dj rj kj Hj. destruct (Nat.eq_dec i j) as [->|Hne].
+        * rewrite nth_error_set_nth_eq in Hj by exact Hlt.
+          destruct Hnf as [[o [_ H]]|[d [r [k1 [k2 [Hold H]]]]]]; rewrite H in Hj; [discriminate|].
+          injection Hj as <- <- <-. exact (inv_read _ I j d r k1 Hold).
+        * rewrite nth_error_set_nth_ne in Hj by exact Hne. exact (inv_read _ I j dj rj kj Hj).
+      + intros j Hj. destruct (Nat.eq_dec i j) as [->|Hne].
+        * rewrite nth_error_set_nth_eq in Hj by exact Hlt.
+          destruct Hnf as [[o [_ H]]|[d [r [k1 [k2 [_ H]]]]]]; rewrite H in Hj; discriminate.
+        * rewrite nth_error_set_nth_ne in Hj by exact Hne. exact (inv_idle _ I j Hj).
+      + intros j t' b kj Hj. destruct (Nat.eq_dec i j) as [->|Hne].
+        * rewrite nth_error_set_nth_eq in Hj by exact Hlt.
+          destruct Hnf as [[o [_ H]]|[d [r [k1 [k2 [_ H]]]]]]; rewrite H in Hj; discriminate.
+        * rewrite nth_error_set_nth_ne in Hj by exact Hne. exact (inv_sent _ I j t' b kj Hj).
+      + intros j Hj. destruct (Nat.eq_dec i j) as [->|Hne].
+        * rewrite nth_error_set_nth_eq in Hj by exact Hlt.
+          destruct Hnf as [[o [Ho H]]|[d [r [k1 [k2 [_ H]]]]]]; rewrite H in Hj; [|discriminate].
+          injection Hj as Hj. contradiction.
+        * rewrite nth_error_set_nth_ne in Hj by exact Hne. exact (inv_ok _ I j Hj).
+      + intros j Hj. destruct (Nat.eq_dec i j) as [->|Hne]; [contradiction|].
+        rewrite nth_error_set_nth_ne by exact Hne. exact (inv_in _ I j Hj).
       + exact (inv_nodup _ I).
       + apply Forall_app. split; [exact (inv_trace _ I)|]. constructor; [exact (Hacc0 eq_refl)|constructor].
   Qed.
 
   Hypothesis all_tagged : Forall (@tagged D) cmds.
 
-  (* the invariant is preserved by every step of every command *)
-  Lemma inv_step (st : state) (i : nat) : inv st -> inv (step cmds i st).
+  (* the invariant is preserved by every step of every command under every fault *)
+  Lemma inv_step (st : state) (x : nat * fault) : inv st -> inv (step cmds x st).
   Proof.
-    intros I. unfold step.
+    intros I. destruct x as [i f]. unfold step.
     destruct (nth_error cmds i) as [c|] eqn:Hc; [|exact I].
     destruct (nth_error (st_ph st) i) as [ph|] eqn:Hph; [|destruct c; exact I].
     pose proof (nth_error_some_lt _ _ _ Hph) as Hlt.
-    assert (Hnot : nth_error (st_ph st) i = Some (PDone OOk) -> ph = PDone OOk) by (rewrite Hph; congruence).
-    destruct c as [edit pol|db].
-    - assert (Hpol : pol = SendRead).
+    destruct c as [edit pol enters rp|db].
+    - assert (Hpol : pol = SendRead /\ rp = false).
       { pose proof (proj1 (Forall_forall _ _) all_tagged _ (nth_error_In _ _ Hc)) as Ht.
-        destruct pol; [reflexivity|destruct Ht]. }
-      subst pol.
-      destruct ph as [|d r|o]; [| |exact I].
+        destruct pol, rp; cbn in Ht; try destruct Ht; auto. }
+      destruct Hpol as [-> ->].
+      destruct ph as [|d r k|t b k|o]; [| | |exact I].
       + (* Read *)
-        constructor; cbn [st_ph st_store st_log st_trace].
+        pose proof (inv_idle _ I i Hph) as Hnotin.
+        constructor; unfold committed in *; cbn [st_ph st_store st_log st_trace].
         * rewrite set_nth_length. exact (inv_len _ I).
         * exact (inv_def _ I).
-        * intros j dj rj Hj. destruct (Nat.eq_dec i j) as [->|Hne].
-          -- rewrite nth_error_set_nth_eq in Hj by exact Hlt. injection Hj as <- <-. split; [lia|reflexivity].
-          -- rewrite nth_error_set_nth_ne in Hj by exact Hne. exact (inv_read _ I j dj rj Hj).
-        * intros j. destruct (Nat.eq_dec i j) as [->|Hne].
-          -- rewrite nth_error_set_nth_eq by exact Hlt. rewrite (inv_log _ I j), Hph.
-             split; intros H; discriminate.
-          -- rewrite nth_error_set_nth_ne by exact Hne. exact (inv_log _ I j).
+        * intros j dj rj kj Hj. destruct (Nat.eq_dec i j) as [->|Hne].
+          -- rewrite nth_error_set_nth_eq in Hj by exact Hlt. injection Hj as <- <- <-.
+             split; [lia|]. split; [reflexivity|exact Hnotin].
+          -- rewrite nth_error_set_nth_ne in Hj by exact Hne. exact (inv_read _ I j dj rj kj Hj).
+        * intros j Hj. destruct (Nat.eq_dec i j) as [->|Hne].
+          -- rewrite nth_error_set_nth_eq in Hj by exact Hlt. discriminate.
+          -- rewrite nth_error_set_nth_ne in Hj by exact Hne. exact (inv_idle _ I j Hj).
+        * intros j t b kj Hj. destruct (Nat.eq_dec i j) as [->|Hne].
+          -- rewrite nth_error_set_nth_eq in Hj by exact Hlt. discriminate.
+          -- rewrite nth_error_set_nth_ne in Hj by exact Hne. exact (inv_sent _ I j t b kj Hj).
+        * intros j Hj. destruct (Nat.eq_dec i j) as [->|Hne].
+          -- rewrite nth_error_set_nth_eq in Hj by exact Hlt. discriminate.
+          -- rewrite nth_error_set_nth_ne in Hj by exact Hne. exact (inv_ok _ I j Hj).
+        * intros j Hj. destruct (Nat.eq_dec i j) as [->|Hne]; [contradiction|].
+          rewrite nth_error_set_nth_ne by exact Hne. exact (inv_in _ I j Hj).
         * exact (inv_nodup _ I).
         * apply Forall_app. split; [exact (inv_trace _ I)|]. constructor; [exact Logic.I|constructor].
       + (* Write *)
-        destruct (inv_read _ I i d r Hph) as [Hle Heq].
-        destruct (edit d) as [d'| | |] eqn:He.
-        * apply inv_write; [exact I|exact Hlt|intros H; specialize (Hnot H); discriminate| |].
-          -- cbn [sent_tag accept]. intros Hacc. apply N.eqb_eq in Hacc. specialize (Heq Hacc). subst d.
-             unfold apply_cmd, event_ok. rewrite Hc, He. split; [reflexivity|]. right. auto.
+        destruct (inv_read _ I i d r k Hph) as [Hle [Heq Hnotin]].
+        destruct (edit k d) as [d'| | |] eqn:He.
+        * apply inv_write; [exact I|exact Hlt|exact Hnotin| | | |].
+          -- intros Hf. destruct f; cbn [after_reply]; auto. contradiction.
+          -- destruct f; cbn [after_reply].
+             ++ left. exists OConflict. split; [discriminate|reflexivity].
+             ++ left. exists OLost. split; [discriminate|reflexivity].
+             ++ destruct (k <? enters)%nat.
+                ** right. exists d, r, k, (S k). auto.
+                ** left. exists ORejected. split; [discriminate|reflexivity].
+          -- cbn [sent_tag accept]. intros Hf Hacc. apply N.eqb_eq in Hacc. specialize (Heq Hacc). subst d.
+             unfold apply_cmd, event_ok. cbn [fst snd]. rewrite Hc, He. split; [reflexivity|].
+             right. repeat split; auto. exists k. exact He.
           -- intros _. unfold event_ok. rewrite Hc. left. auto.
-        * apply (inv_finish st i ONoWrite d r I Hph). discriminate.
-        * apply (inv_finish st i OErr d r I Hph). discriminate.
-        * apply (inv_finish st i OPanic d r I Hph). discriminate.
-    - destruct ph as [|d r|o]; [|exact I|exact I].
-      apply inv_write; [exact I|exact Hlt|intros H; specialize (Hnot H); discriminate| |].
-      + intros _. unfold apply_cmd, event_ok. rewrite Hc. auto.
-      + cbn [accept]. discriminate.
+        * apply (inv_finish st i ONoWrite d r k I Hph). discriminate.
+        * apply (inv_finish st i OErr d r k I Hph). discriminate.
+        * apply (inv_finish st i OPanic d r k I Hph). discriminate.
+      + exfalso. exact (inv_sent _ I i t b k Hph).
+    - destruct ph as [|d r k|t b k|o]; [|exact I|exact I|exact I].
+      pose proof (inv_idle _ I i Hph) as Hnotin.
+      apply inv_write; [exact I|exact Hlt|exact Hnotin| | | |].
+      + intros Hf. destruct f; cbn [after_reply]; auto. contradiction.
+      + left. destruct f; cbn [after_reply].
+        * exists OConflict. split; [discriminate|reflexivity].
+        * exists OLost. split; [discriminate|reflexivity].
+        * exists ORejected. split; [discriminate|reflexivity].
+      + intros Hf _. unfold apply_cmd, event_ok. cbn [fst]. rewrite Hc. split; [reflexivity|]. right. auto.
+      + intros Hcnd. unfold event_ok. rewrite Hc. left. destruct f; cbn [accept] in Hcnd; try discriminate. auto.
   Qed.
 
-  Lemma inv_run (sched : list nat) (st : state) : inv st -> inv (run cmds sched st).
+  Lemma inv_run (sched : list (nat * fault)) (st : state) : inv st -> inv (run cmds sched st).
   Proof.
     revert st; induction sched as [|i r IH]; intros st I; [exact I|].
     cbn [run fold_left]. apply IH. apply inv_step. exact I.
@@ -185,72 +256,116 @@ Theorem no_lost_update (D : Type) : occ_statement D (@tagged D).
 Proof.
   intros cmds Hall init sched fin.
   pose proof (inv_run D cmds (s_def init) Hall sched _ (inv_init D cmds (s_def init) init eq_refl)) as I.
-  fold fin in I. destruct I as [_ Hdef _ Hlog Hnd Htr]. auto.
+  fold fin in I. destruct I as [_ Hdef _ _ _ Hok Hin Hnd Htr]. auto.
+Qed.
+
+(* a command that was told "conflict" (or ended for any reason other than success / lost reply) committed nothing *)
+Corollary conflict_changed_nothing (D : Type) (cmds : list (command D)) :
+  Forall (@tagged D) cmds ->
+  forall (init : store D) (sched : list (nat * fault)) (i : nat) (o : outcome),
+    let fin := run cmds sched (init_state cmds init) in
+    nth_error (st_ph fin) i = Some (PDone o) -> o <> OOk -> o <> OLost -> ~ In i (committed fin).
+Proof.
+  intros Hall init sched i o fin Hph Hk Hl Hin.
+  destruct (no_lost_update D cmds Hall init sched) as [_ [_ [_ [_ H]]]]. fold fin in H.
+  destruct (H i Hin) as [H'|H']; rewrite H' in Hph; injection Hph as <-; contradiction.
 Qed.
 
 (* the guarantee about one step, read off the invariant: from any state reachable under any schedule, the write step
-   of a tagged read-modify-write command either is rejected and leaves the store unchanged, or installs its edit
-   of the definition that is current at that moment (not of the definition it read earlier) *)
+   of a tagged read-modify-write command under any fault either leaves the store unchanged and does not end in
+   success, or installs its edit of the definition that is current at that moment (not of the definition it read
+   earlier) and ends in success or, if the reply was lost, in "lost" *)
 Theorem write_step_safe (D : Type) (cmds : list (command D)) :
   Forall (@tagged D) cmds ->
-  forall (init : store D) (sched : list nat) (i : nat) (edit : D -> eres D) (pol : policy) (d : D) (r : N),
+  forall (init : store D) (sched : list (nat * fault)) (i : nat) (f : fault)
+         (edit : nat -> D -> eres D) (pol : policy) (enters : nat) (rp : bool) (d : D) (r : N) (k : nat),
     let st := run cmds sched (init_state cmds init) in
-    nth_error cmds i = Some (RMW edit pol) ->
-    nth_error (st_ph st) i = Some (PRead d r) ->
-    let st' := step cmds i st in
-    (nth_error (st_ph st') i = Some (PDone OConflict) /\ st_store st' = st_store st)
-    \/ (exists d', nth_error (st_ph st') i = Some (PDone OOk) /\ edit (s_def (st_store st)) = EUpd d'
-                   /\ st_store st' = mkStore d' (s_rev (st_store st) + 1))
-    \/ ((exists o, o <> OOk /\ o <> OConflict /\ nth_error (st_ph st') i = Some (PDone o)) /\ st_store st' = st_store st).
+    nth_error cmds i = Some (RMW edit pol enters rp) ->
+    nth_error (st_ph st) i = Some (PRead d r k) ->
+    let st' := step cmds (i, f) st in
+    (st_store st' = st_store st /\ nth_error (st_ph st') i <> Some (PDone OOk))
+    \/ (exists d', edit k (s_def (st_store st)) = EUpd d'
+                   /\ st_store st' = mkStore d' (s_rev (st_store st) + 1)
+                   /\ (nth_error (st_ph st') i = Some (PDone OOk) \/ nth_error (st_ph st') i = Some (PDone OLost))).
 Proof.
-  intros Hall init sched i edit pol d r st Hc Hph st'.
+  intros Hall init sched i f edit pol enters rp d r k st Hc Hph st'.
   pose proof (inv_run D cmds (s_def init) Hall sched _ (inv_init D cmds (s_def init) init eq_refl)) as I.
   fold st in I.
-  assert (Hpol : pol = SendRead).
-  { pose proof (proj1 (Forall_forall _ _) Hall _ (nth_error_In _ _ Hc)) as Ht. destruct pol; [reflexivity|destruct Ht]. }
-  subst pol.
+  assert (Hpol : pol = SendRead /\ rp = false).
+  { pose proof (proj1 (Forall_forall _ _) Hall _ (nth_error_In _ _ Hc)) as Ht.
+    destruct pol, rp; cbn in Ht; try destruct Ht; auto. }
+  destruct Hpol as [-> ->].
   pose proof (nth_error_some_lt _ _ _ Hph) as Hlt.
-  destruct (inv_read _ _ _ _ I i d r Hph) as [Hle Heq].
+  destruct (inv_read _ _ _ _ I i d r k Hph) as [Hle [Heq _]].
   subst st'. unfold step. rewrite Hc, Hph.
-  destruct (edit d) as [d'| | |] eqn:He.
-  - unfold write. cbn [sent_tag accept]. destruct (r =? s_rev (st_store st)) eqn:Hacc.
-    + right; left. apply N.eqb_eq in Hacc. specialize (Heq Hacc). subst d. exists d'.
-      cbn [st_ph st_store]. rewrite nth_error_set_nth_eq by exact Hlt. auto.
-    + left. cbn [st_ph st_store]. rewrite nth_error_set_nth_eq by exact Hlt. auto.
-  - right; right. cbn [finish st_ph st_store]. rewrite nth_error_set_nth_eq by exact Hlt.
-    split; [exists ONoWrite; repeat split; discriminate|reflexivity].
-  - right; right. cbn [finish st_ph st_store]. rewrite nth_error_set_nth_eq by exact Hlt.
-    split; [exists OErr; repeat split; discriminate|reflexivity].
-  - right; right. cbn [finish st_ph st_store]. rewrite nth_error_set_nth_eq by exact Hlt.
-    split; [exists OPanic; repeat split; discriminate|reflexivity].
+  destruct (edit k d) as [d'| | |] eqn:He.
+  - unfold write. cbn [sent_tag accept].
+    destruct (match f with FReject => false | _ => r =? s_rev (st_store st) end) eqn:Hacc.
+    + right. assert (Hr : (r =? s_rev (st_store st)) = true) by (destruct f; [exact Hacc|exact Hacc|discriminate]).
+      apply N.eqb_eq in Hr. specialize (Heq Hr). subst d. exists d'.
+      cbn [st_ph st_store]. rewrite nth_error_set_nth_eq by exact Hlt.
+      split; [exact He|]. split; [reflexivity|]. destruct f; cbn [after_reply]; auto. discriminate.
+    + left. cbn [st_ph st_store]. rewrite nth_error_set_nth_eq by exact Hlt. split; [reflexivity|].
+      destruct f; cbn [after_reply]; try discriminate. destruct (k <? enters)%nat; discriminate.
+  - left. cbn [finish st_ph st_store]. rewrite nth_error_set_nth_eq by exact Hlt. split; [reflexivity|discriminate].
+  - left. cbn [finish st_ph st_store]. rewrite nth_error_set_nth_eq by exact Hlt. split; [reflexivity|discriminate].
+  - left. cbn [finish st_ph st_store]. rewrite nth_error_set_nth_eq by exact Hlt. split; [reflexivity|discriminate].
+Qed.
+
+(* a schedule without faults is a special case *)
+Lemma no_faults_run (D : Type) (cmds : list (command D)) (sched : list nat) (st : state D) :
+  run cmds (no_faults sched) st = fold_left (fun st i => step cmds (i, FNone) st) sched st.
+Proof.
+  revert st; induction sched as [|i r IH]; intros st; [reflexivity|]. cbn [no_faults map run fold_left]. apply IH.
 Qed.
 
 (* ---- with an empty tag the statement is false ---- *)
 Definition lost_cmds : list (command N) :=
-  [RMW (fun d => EUpd (d + 1)) SendEmpty; RMW (fun d => EUpd (d + 10)) SendRead].
+  [RMW (fun _ d => EUpd (d + 1)) SendEmpty 0 false; RMW (fun _ d => EUpd (d + 10)) SendRead 0 false].
 
-Theorem empty_tag_loses_update_refuted : ~ occ_statement N (fun _ => True).
+Theorem empty_tag_loses_update_refuted :
+  ~ occ_statement N (fun c => match c with RMW _ _ _ true => False | _ => True end).
 Proof.
   intros H.
-  specialize (H lost_cmds (proj2 (Forall_forall _ _) (fun _ _ => Logic.I)) (mkStore 0 5) [0; 1; 1; 0]%nat).
+  assert (Hall : Forall (fun c : command N => match c with RMW _ _ _ true => False | _ => True end) lost_cmds)
+    by (repeat constructor).
+  specialize (H lost_cmds Hall (mkStore 0 5) (no_faults [0; 1; 1; 0]%nat)).
   destruct H as [_ [Hdef _]]. vm_compute in Hdef. discriminate.
+Qed.
+
+(* ---- if the client sends an update again after a lost reply, the statement is false although every command sends
+   the tag it read: the update is committed, its reply lost, the second sending is refused (the tag is stale now),
+   the command reports a conflict and yet its change is in the definition ---- *)
+Definition replay_cmds : list (command N) := [RMW (fun _ d => EUpd (d + 1)) SendRead 0 true].
+
+Theorem replay_after_lost_reply_refuted :
+  ~ occ_statement N (fun c => match c with RMW _ SendEmpty _ _ => False | _ => True end).
+Proof.
+  intros H.
+  assert (Hall : Forall (fun c : command N => match c with RMW _ SendEmpty _ _ => False | _ => True end) replay_cmds)
+    by (repeat constructor).
+  specialize (H replay_cmds Hall (mkStore 0 5) [(0, FNone); (0, FLost); (0, FNone)]%nat).
+  destruct H as [_ [_ [_ [_ Hin]]]]. specialize (Hin 0%nat). vm_compute in Hin.
+  destruct (Hin (or_introl eq_refl)) as [H|H]; discriminate.
 Qed.
 
 (* ---- the commands of the CLI with the policies read from the source ---- *)
 From Verif Require Import Model.OccSrc.
 
 Theorem no_lost_update_cli :
-  pol_set = SendRead /\ pol_rm = SendRead /\ pol_edit = SendRead ->
-  forall (ops : list op) (init : store tree) (sched : list nat),
+  pol_set = SendRead /\ pol_rm = SendRead /\ pol_edit = SendRead -> update_replayed = false ->
+  forall (ops : list op) (init : store tree) (sched : list (nat * fault)),
     let cmds := map cli_command ops in
     let fin := run cmds sched (init_state cmds init) in
     Forall (event_ok cmds) (st_trace fin)
     /\ s_def (st_store fin) = replay cmds (st_log fin) (s_def init)
-    /\ NoDup (st_log fin)
-    /\ (forall i, In i (st_log fin) <-> nth_error (st_ph fin) i = Some (PDone OOk)).
+    /\ NoDup (committed fin)
+    /\ (forall i, nth_error (st_ph fin) i = Some (PDone OOk) -> In i (committed fin))
+    /\ (forall i, In i (committed fin) ->
+                  nth_error (st_ph fin) i = Some (PDone OOk) \/ nth_error (st_ph fin) i = Some (PDone OLost)).
 Proof.
-  intros [Hs [Hr He]] ops init sched.
+  intros [Hs [Hr He]] Hrp ops init sched.
   apply (no_lost_update tree).
   apply Forall_forall. intros c Hc. apply in_map_iff in Hc. destruct Hc as [o [<- _]].
-  unfold cli_command, command_of. rewrite Hs, Hr, He. destruct o; exact Logic.I.
+  unfold cli_command, command_of. rewrite Hs, Hr, He, Hrp. destruct o; exact Logic.I.
 Qed.
